@@ -258,7 +258,26 @@ func caseTimeout(line string) time.Duration {
 	return 60 * time.Second
 }
 
+// execParent: a hang verdict is a wall-clock verdict, and wall-clock verdicts turn machine load into alarms
+// (review G #8: a `conns` line that takes 3 s alone got no answer within 60 s at load average 35). So a line
+// that got no answer is run a second time, alone in a fresh child, before anything is reported; only the
+// selector blow-ups that are known findings (5 s each, they hang by construction) are not retried.
 func execParent(line string) (res h.Result) {
+	res = execParentOnce(line)
+	if res.Impl == "hang" && strings.HasPrefix(res.Oracle, "hang-") && !strings.Contains(res.Oracle, "not run:") &&
+		!strings.HasPrefix(res.Oracle, "hang-selector-blowup") && !strings.HasPrefix(res.Oracle, "hang-xpath-ancestor-axis") {
+		op := strings.Fields(line)[0]
+		hangs[op]-- // the verdict of the first attempt is withdrawn
+		first := res.Oracle
+		res = execParentOnce(line)
+		if res.Impl == "hang" {
+			res.Oracle += " [second attempt in a fresh process; first: " + h.OneLine(first) + "]"
+		}
+	}
+	return
+}
+
+func execParentOnce(line string) (res h.Result) {
 	defer func() {
 		// fz* cases have no model: the compared line is constant, the observation is in the oracle and the class
 		if strings.HasPrefix(line, "fz") {
